@@ -20,8 +20,10 @@ def universe(optional=False):
     if optional:
         O = c.ZDO.IeeeAddrReq.Rsp
         ieee = t.EUI64.convert("00:11:22:33:44:55:66:77")
+        NA = c.zdo.NWKArray
         doms[O] = [("TSN", [1]), ("StatusCat", [sc(0)]), ("StatusCode", [sg(0)]), ("RemoteDevIEEE", [ieee]),
-                   ("RemoteDevNWK", [t.NWK(0x1234), t.NWK(0)]), ("NumAssocDev", [0, 1]), ("StartIndex", [0])]
+                   ("RemoteDevNWK", [t.NWK(0x1234), t.NWK(0)]), ("NumAssocDev", [0, 1]), ("StartIndex", [0]),
+                   ("AssocDevNWKList", [NA([t.NWK(7)]), NA([t.NWK(7), t.NWK(9)])])]
         return [A, B, O], doms
     return [A, B], doms
 
@@ -37,7 +39,8 @@ def encode(classes, cmd):
             try:
                 vals.append(str(int(v)))
             except (TypeError, ValueError):
-                vals.append(str(int.from_bytes(v.serialize(), "little")))
+                # lists and byte-like values: their wire image as one number, a leading 1 keeps empty / zero-leading apart
+                vals.append(str(int.from_bytes(v.serialize() + b"\x01", "little")))
     return "%d:%s" % (k + 1, ",".join(vals) if vals else "-")
 
 
